@@ -78,7 +78,7 @@ func main() {
 		{"C02", []string{"clover..tryToSelectIndex", "clover..getIndexQueries", "clover.iterNode.iterateIndex", "clover.iterNode.iterateFullCollection", "clover.iterNode.Run",
 			"clover.NotFlattenVisitor.VisitUnaryCriteria", "clover.NotFlattenVisitor.VisitBinaryCriteria", "clover.NotFlattenVisitor.VisitNotCriteria", "clover.NotFlattenVisitor.removeNotCriteria",
 			"clover.IndexSelectVisitor.VisitUnaryCriteria", "clover.IndexSelectVisitor.VisitBinaryCriteria", "clover.IndexSelectVisitor.VisitNotCriteria",
-			"clover.FieldRangeVisitor.VisitUnaryCriteria", "clover.FieldRangeVisitor.VisitBinaryCriteria", "clover.FieldRangeVisitor.VisitNotCriteria", "clover..unaryCriteriaToRange",
+			"clover.FieldRangeVisitor.VisitUnaryCriteria", "clover.FieldRangeVisitor.VisitBinaryCriteria", "clover.FieldRangeVisitor.VisitNotCriteria",
 			"index.RangeIndexQuery.Run"}},
 		{"C09", []string{"clover.DB.countCollection", "clover.DB.Exists", "clover.DB.FindFirst", "clover.DB.Count", "clover.DB.FindAll", "clover.DB.IterateDocs", "clover.DB.ForEach",
 			"clover.DB.FindById", "clover..getDocumentById", "clover.DB.getCollectionSize"}},
@@ -99,7 +99,7 @@ func main() {
 			"clover.DB.ListCollections", "clover.DB.saveCollectionMetadata", "clover.DB.getCollectionMeta", "clover..iteratePrefix", "clover.DB.CreateCollectionByQuery", "clover.DB.createCollectionWith"}},
 		{"C14", []string{"clover.DB.CreateIndex", "clover.DB.createIndex", "clover.DB.HasIndex", "clover.DB.hasIndex", "clover.DB.DropIndex", "clover.DB.ListIndexes", "clover.DB.listIndexes",
 			"clover.DB.getIndexes", "index.rangeIndex.Drop", "index.rangeIndex.Add"}},
-		{"C10", []string{"internal..TypeId", "internal..compareTypes", "internal..compareSlices", "internal..compareNumbers", "internal..toUint64", 
+		{"C10", []string{"internal..TypeId", "internal..compareTypes", "internal..compareSlices", "internal..compareNumbers", "internal..toUint64",
 			"internal..Compare", "internal..compareObjects", "internal..getEncodeValue", "internal..orderedCodePrimitive", "internal..OrderedCode", "internal..orderedCode", "internal..orderedCodeSlice",
 			"internal..orderedCodeObject", "index.rangeIndex.getKey", "index.rangeIndex.getKeyPrefixForType", "index.rangeIndex.getKeyPrefix", "index.rangeIndex.encodeValueAndId"}},
 		{"C11", []string{"internal..Encode", "internal..Decode", "internal..replaceTimes", "internal..removeLocalizedTimes", "internal.LocalizedTime.MarshalMsgpack", "internal.LocalizedTime.UnmarshalMsgpack",
@@ -138,7 +138,7 @@ func main() {
 	// definitions (Proofs/Translated.lean): their tie is semantic, so their text is not pinned - a rewrite that computes the
 	// same passes, one that does not breaks the proof
 	translated := []string{"index.Range.IsEmpty", "index.Range.IsNil", "index.Range.Intersect", "internal..compareInt64", "internal..compareUint64",
-		"util..BoolToInt", "clover.skipLimitNode.Callback"}
+		"util..BoolToInt", "clover.skipLimitNode.Callback", "clover..unaryCriteriaToRange"}
 	wanted := map[string]bool{}
 	for _, f := range translated {
 		wanted[f] = true
